@@ -441,6 +441,30 @@ func extractAll() {
 			addConst(k.n, c, k.c)
 		}
 	}
+	// ---- eio.Server.newSocket: is the closed flag re-checked after store.set ?
+	{
+		rel := "engine.io/server.go"
+		fd := findFunc(load(rel), "Server", "newSocket")
+		setPos, recheck := token.NoPos, false
+		if fd != nil {
+			ast.Inspect(fd, func(x ast.Node) bool {
+				call, ok := x.(*ast.CallExpr)
+				if !ok {
+					return true
+				}
+				if se, ok := call.Fun.(*ast.SelectorExpr); ok {
+					if se.Sel.Name == "set" && setPos == token.NoPos {
+						setPos = call.Pos()
+					}
+					if se.Sel.Name == "IsClosed" && setPos != token.NoPos && call.Pos() > setPos {
+						recheck = true
+					}
+				}
+				return true
+			})
+		}
+		addBool("eioNewSocketRechecksClosed", recheck, rel)
+	}
 	// ---- Socket.IO packet types
 	{
 		p := "parser/packet.go"
